@@ -30,7 +30,8 @@ pub enum Code { DescribedType, Null, Other }
 //@@ end
 //@@ type file=serde_amqp/src/util.rs kind=enum name=EnumType
 //@@ end
-pub struct Deserializer { pub reader: ReaderS, pub elem_format_code: Option<EncodingCodes>, pub decoded: Ghost<Seq<Option<EncodingCodes>>>, pub struct_encoding: StructEncoding, pub enum_type: EnumType }
+/// `seed_errs` (ghost): how many element decoders (seeds) driven through this deserializer failed
+pub struct Deserializer { pub reader: ReaderS, pub elem_format_code: Option<EncodingCodes>, pub decoded: Ghost<Seq<Option<EncodingCodes>>>, pub struct_encoding: StructEncoding, pub enum_type: EnumType, pub seed_errs: Ghost<nat> }
 pub struct SeedS { pub g: Ghost<int> }
 #[verifier::external_body]
 pub struct ElemV { _p: u8 }
@@ -40,6 +41,7 @@ pub fn seed_deserialize(seed: SeedS, de: &mut Deserializer) -> (r: Result<ElemV,
         final(de).decoded@ == old(de).decoded@.push(old(de).elem_format_code),
         final(de).elem_format_code is None || final(de).elem_format_code == old(de).elem_format_code,
         final(de).reader.consumed >= old(de).reader.consumed,
+        final(de).seed_errs@ == old(de).seed_errs@ + (if r is Err { 1nat } else { 0nat }),
 { unimplemented!() }
 /// consume_list_header / consume_map_header (compound header readers: the contracts of deserialize_seq / deserialize_map in unit READERS): the count read
 /// from the wire is ANY 32-bit number the peer cares to send
@@ -83,6 +85,8 @@ impl ArrayAccess {
         old(self).count > 0 ==> final(self).count == old(self).count - 1
             && final(self).de.decoded@ == old(self).de.decoded@.push(old(self).elem_format_code),   // [C03.array.every-element-under-array-constructor] EVERY element of an array -- the second and later ones too, whatever the earlier elements were (lists, maps, nested arrays clear or replace the deserializer's current element constructor) -- is decoded under the array's element constructor
         old(self).count > 0 && r is Ok ==> r->Ok_0 is Some && final(self).de.reader.consumed - old(self).start_pos <= old(self).size,   // [C04.array.body-overrun] an element that reads past the announced body is refused
+        old(self).count > 0 && r is Err && final(self).de.seed_errs@ == old(self).de.seed_errs@ && old(self).start_pos <= old(self).de.reader.consumed
+            ==> final(self).de.reader.consumed - old(self).start_pos > old(self).size,                           // [C03.array.element-within-body-accepted] an element that decodes and stays within the announced body (ending exactly at its end included) is accepted: the overrun guard refuses nothing else
 //@@ end
 }
 
